@@ -50,7 +50,7 @@ int Linker::add_file(const char *filename)
 
   n = strlen(filename);
 
-  while (n >= 0)
+  while (n > 0)
   {
     n--;
     if (filename[n] == '.') { break; }
